@@ -16,9 +16,32 @@ def wire_constructions(prog, adt_path):
     return out
 
 
+PURE_CALLS = {"to_string", "clone", "to_vec", "to_owned", "into", "from", "deref", "deref_mut", "as_ref", "default", "encode", "unwrap_or_default",
+              "unwrap_or", "unwrap_or_else", "map", "cloned", "copied", "as_secs", "new", "fmt", "into_iter", "iter", "collect", "ok_or", "ok_or_else",
+              "as_str", "as_bytes", "as_slice", "borrow", "to_bytes", "into_bytes", "into_boxed_str", "into_string", "from_utf8_lossy", "format", "must_use",
+              "upgrade", "as_micros", "as_millis", "now", "with_capacity", "transpose", "and_then", "get", "trim", "push", "insert", "extend", "len",
+              "unwrap", "expect", "message", "ack_id", "into_message"}
+
+
+def opaque_calls(prog, s):
+    """library calls in a slice that are not known value-preserving conversions"""
+    out = []
+    for c in s.calls:
+        if c.startswith("crate::") or c.startswith("<crate::"):
+            continue
+        n = c.split("::")[-1].split("<")[0]
+        if n not in PURE_CALLS:
+            out.append(c)
+    return out
+
+
 def provenance_check(prog, out, sl, label, bid, bb, field, op, required, note_only=False):
     bi = prog.info(bid)
     s = sl.of(bid, op)
+    # the mapping function's own parameters are its inputs: what matters is which fields are read from them
+    own_params = {r for r in s.roots if r[0] == "param" and r[1] == bid}
+    if own_params and not opaque_calls(prog, s):
+        s.roots -= own_params
     key = "%s:%s.%s" % (prog.short(bid), label, field)
     site = bi.loc(bb)
     req_s = "%s.%s" % (short_ty(required[0]), required[1])
@@ -340,8 +363,8 @@ def classify_bin(rv):
         if c is not None:
             return "inc" if c >= 1 else "bad"
         return "unknown"
-    if op in ("Sub", "SubWithOverflow", "Mul", "MulWithOverflow", "Rem", "BitAnd", "Shr", "Div"):
-        return "bad"
+    if op in ("Sub", "SubWithOverflow", "Rem", "BitAnd", "BitOr", "Shr", "Div"):
+        return "bad"    # decreasing, idempotent or many-to-one: the value can repeat
     return "unknown"
 
 
